@@ -85,6 +85,33 @@ func (h *H) Param(name string, def int) int {
 // VIOLATION. It returns cond.
 func (h *H) Known(id string, cond bool) bool { return cond }
 
+// And/Or/Not/Implies/Ite combine conditions without branching (one SMT term
+// under gosx instead of a fork per operand).
+func (h *H) And(cs ...bool) bool {
+	for _, c := range cs {
+		if !c {
+			return false
+		}
+	}
+	return true
+}
+func (h *H) Or(cs ...bool) bool {
+	for _, c := range cs {
+		if c {
+			return true
+		}
+	}
+	return false
+}
+func (h *H) Not(c bool) bool        { return !c }
+func (h *H) Implies(a, b bool) bool { return !a || b }
+func (h *H) Iff(a, b bool) bool     { return a == b }
+
+// StrEq / HasPrefix / HasSuffix as single terms.
+func (h *H) StrEq(a, b string) bool     { return a == b }
+func (h *H) HasPrefix(s, p string) bool { return strings.HasPrefix(s, p) }
+func (h *H) HasSuffix(s, p string) bool { return strings.HasSuffix(s, p) }
+
 // Symbolic reports whether the harness runs under gosx.
 func (h *H) Symbolic() bool { return false }
 
@@ -229,3 +256,7 @@ func (h *H) FireTimer(name string, wait time.Duration) bool {
 func (h *H) SymbolicSched(preemptions int) {}
 
 func (h *H) Yield() {}
+
+// StubJWT tells the gosx model of jwt.ParseWithClaims which token shape the
+// next parse sees (no effect natively, where a real token is parsed).
+func (h *H) StubJWT(aud, iss, alg int, sigOK, fresh bool) {}
